@@ -2,6 +2,7 @@ package rules
 
 import (
 	"fmt"
+	"go/token"
 	"go/types"
 	"strings"
 
@@ -181,6 +182,55 @@ func checkCopySiblings(c *core.Ctx, pd *PkgInfo) {
 					if strings.Contains(pv, "param:num") && (strings.Contains(pv, "/") || strings.Contains(pv, ">>")) {
 						boundDiv = true
 					}
+				}
+			}
+		}
+		// the words are counted by num / 4: the remaining num % 4 bytes are moved on every path
+		{
+			isRem := func(v ssa.Value) bool {
+				bo, ok := core.StripConv(v).(*ssa.BinOp)
+				if !ok {
+					return false
+				}
+				k, isC := core.ConstInt(bo.Y)
+				if !isC {
+					return false
+				}
+				_, isParam := core.StripConv(bo.X).(*ssa.Parameter)
+				return isParam && ((bo.Op == token.REM && k == 4) || (bo.Op == token.AND && k == 3))
+			}
+			floorDiv := false
+			for _, b := range fn.Blocks {
+				for _, in := range b.Instrs {
+					if bo, ok := in.(*ssa.BinOp); ok && (bo.Op == token.QUO || bo.Op == token.SHR) {
+						if _, isParam := core.StripConv(bo.X).(*ssa.Parameter); isParam {
+							if k, isC := core.ConstInt(bo.Y); isC && ((bo.Op == token.QUO && k == 4) || (bo.Op == token.SHR && k == 2)) {
+								floorDiv = true
+							}
+						}
+					}
+				}
+			}
+			if floorDiv {
+				g := core.BuildGraph(fn, 0, nil)
+				var leak *core.Node
+				okW := g.Walk([]core.State{{N: g.Entry}}, core.WalkOpts{ForwardOnly: true, Stop: func(n *core.Node) bool {
+					iff, ok := n.Instr.(*ssa.If)
+					if !ok {
+						return false
+					}
+					cmp, ok := iff.Cond.(*ssa.BinOp)
+					return ok && (isRem(cmp.X) || isRem(cmp.Y))
+				}}, func(x core.State) {
+					if _, isRet := x.N.Instr.(*ssa.Return); isRet && leak == nil {
+						leak = x.N
+					}
+				})
+				st11.Instances++
+				st11.Ob(okW && leak == nil)
+				st11.Sample("EnqueueMemCopyD2D: the num %% 4 remainder is looked at on every path: %v", leak == nil)
+				if leak != nil {
+					c.ReportAt("R11.11", fn, leak.Instr.Pos(), "d2d-tail-skipped", "EnqueueMemCopyD2D counts whole words (num / 4) for the copy kernel and can return without looking at the remaining num % 4 bytes: a copy of 1 to 3 bytes (or any path that returns early) moves nothing and reports success")
 				}
 			}
 		}
